@@ -40,6 +40,9 @@ def gen_stream(rng, tid, scope, before_start=None, shift=0):
     nbase = rng.choice([5, 30, 200, 1500])
     nreg = rng.randint(1, 8)
     reg_at = sorted(rng.sample(range(1, nbase + 1), min(nreg, nbase)))
+    tail_region = scope == "fail" and rng.random() < 0.5
+    if tail_region:
+        reg_at[-1] = nbase          # the last region comes after every other event
     if rng.random() < 0.15:
         reg_at[0] = 0 if False else 1
     maxdepth = 0
@@ -85,7 +88,14 @@ def gen_stream(rng, tid, scope, before_start=None, shift=0):
             evs.append([clock, "OU]", b"", False])
             info["regions"].append({"at": i, "inside": nin, "depth": d})
     clock += 1
-    evs.append([clock, "OHe", b"", False])
+    if tail_region and evs[-1][1] == "OU]":
+        # the region closes the stream (it comes after the thread's end event): its
+        # OU] is the very last event
+        k = max(n for n, e in enumerate(evs) if e[1] == "OU[")
+        evs.insert(k, [evs[k][0], "OHe", b"", False])
+        info["ends_with_region"] = True
+    else:
+        evs.append([clock, "OHe", b"", False])
     # Look-back each region needs, measured on the stream as ovnisort sees
     # it: regions are processed in order and every earlier region has already
     # been sorted into place when the next one is reached (an event that an
